@@ -1,4 +1,4 @@
-From WS Require Import lib.Bytes lib.Res model.MatrixCard corr.Generic.
+From WS Require Import lib.Bytes lib.Res model.MatrixCard model.MatrixProof corr.Generic.
 Local Open Scope N_scope.
 
 (* op 1: MatrixCard::from_data, get_number_at_coordinates(x, y), to_printer()
@@ -11,7 +11,18 @@ Local Open Scope N_scope.
          for round = 0, 1, ..., 255
          in: [width], [height], [challenge_count], seed (8 LE)
          out: status, one string of 256 * 3 bytes: (0,0,0) for None, (1,x,y) for Some((x,y))
-              [2]                                        new or any of the 256 calls panicked  *)
+              [2]                                        new or any of the 256 calls panicked
+   op 3: MatrixCardVerifier::new(count, height, seed, width, K), enter_value(d) for every entered
+         digit d in order, into_proof()
+         in: [count], [height], seed (8 LE), [width], K (40), entered digits
+         out: status, proof (20)
+              [2]                                        a call panicked
+   op 4: MatrixCard::from_data(digit_count, height, width, data) then
+         verify_matrix_card_hash(&card, count, seed, K, presented proof)
+         in: [digit_count], [height], [width], data, [count], seed (8 LE), K (40), presented proof (20)
+         out: [1; 0]                                     from_data returned None
+              status, [0 or 1]
+              [2]                                        verify_matrix_card_hash panicked      *)
 Fixpoint rounds_out (count w h : N) (cs : list N) (rounds : list N) : option (list N) :=
   match rounds with
   | [] => Some []
@@ -38,7 +49,7 @@ Definition run_C18 : runner := fun op a =>
       | _, _ => [st_panic]
       end
     end
-  | _ =>
+  | 2 =>
     let w := argN 0 a in let h := argN 1 a in let count := argN 2 a in
     match generate_coordinates w h count (argN 3 a) with
     | Ok cs => match rounds_out count w h cs (map N.of_nat (seq 0 (N.to_nat 256))) with
@@ -46,5 +57,19 @@ Definition run_C18 : runner := fun op a =>
                | None => [st_panic]
                end
     | _ => [st_panic]
+    end
+  | 3 =>
+    match client_proof_of (argN 0 a) (argN 1 a) (argN 2 a) (argN 3 a) (arg 4 a) (arg 5 a) with
+    | Ok p => [st_ok; p]
+    | _ => [st_panic]
+    end
+  | _ =>
+    match from_data (argN 0 a) (argN 1 a) (argN 2 a) (arg 3 a) with
+    | None => [st_err 0]
+    | Some c =>
+      match verify_matrix_card_hash c (argN 4 a) (argN 5 a) (arg 6 a) (arg 7 a) with
+      | Ok b => [st_ok; [if b then 1 else 0]]
+      | _ => [st_panic]
+      end
     end
   end.
